@@ -126,6 +126,8 @@ pub struct Ctx {
     pub verbose: bool,
     /// case enumeration indices to skip (supervisor restart after a worker died in them)
     pub skip: BTreeSet<u64>,
+    /// run only every k-th case of the enumeration (sanitizer layers)
+    pub sample_every: u64,
 }
 
 impl Ctx {
@@ -168,6 +170,7 @@ impl Ctx {
             progress,
             verbose: false,
             skip: BTreeSet::new(),
+            sample_every: 1,
         }
     }
 
@@ -220,6 +223,9 @@ impl Ctx {
                     return;
                 }
                 if self.skip.contains(&k) {
+                    return;
+                }
+                if self.sample_every > 1 && (k / self.nshards as u64) % self.sample_every != 0 {
                     return;
                 }
             }
